@@ -82,7 +82,8 @@ async fn wfa_checked(ctx: &Ctx, w: &DataWriterAsync<KeyedData>, readers: &[(Data
 }
 
 async fn acks(ctx: Ctx, p: Rc<AckParams>) {
-    let f = ctx.factory("", None);
+    // with the lease patched to 1 s the announcement period must be shorter than the lease
+    let f = ctx.factory("", if p.leave == Leave::Vanish { Some(200) } else { None });
     if p.leave == Leave::Vanish {
         crate::sim::with(|w| w.net.rewrite = Some(Box::new(|d| if d.meta { patch_lease(&d.bytes, 1) } else { None })));
     }
